@@ -358,7 +358,7 @@ func runC16(c *Ctx) {
 	c16ReaderErrors(c, s)
 
 	// R5: adapter
-	ad := c.P.Func(load.ModPath, "(*asStringWriter).WriteString")
+	ad := adapterWriteString(c)
 	if ad == nil {
 		// adapter might have been removed if sanitize requires StringWriter; then R5 is moot only if no wrapper is created
 		R.Unknown("C16.R5", "adapter", "(*asStringWriter).WriteString", "", "adapter method not found")
